@@ -513,6 +513,7 @@ func runC19World(r *Run, seed int64) {
 	}
 	// concurrent entry points
 	var idMu sync.Mutex
+	var timerHits atomic.Int32
 	pickID := func() *swap.SwapId {
 		idMu.Lock()
 		defer idMu.Unlock()
@@ -618,6 +619,20 @@ func runC19World(r *Run, seed int64) {
 				idMu.Lock()
 				ids = append(ids, sm.SwapId.String())
 				idMu.Unlock()
+			}
+		case 3:
+			// the negotiation timeout of a swap becomes due at the moment its counterparty's cancel (or an invalid
+			// message) arrives: timer entry point and message entry point of one swap, delivered by different pumps
+			// (a few times per world: every firing ends all swaps that are still negotiating)
+			if id := pickID(); id != nil && timerHits.Add(1) <= 4 {
+				w.Advance(11 * time.Minute)
+				if lr(2) == 0 {
+					w.InjectMsg(b.ID, "alice", ref.MsgCancel, mustJSON(&swap.CancelMessage{SwapId: id, Message: "late"}))
+					w.InjectMsg(a.ID, "bob", ref.MsgCancel, mustJSON(&swap.CancelMessage{SwapId: id, Message: "late"}))
+				} else {
+					w.InjectMsg(b.ID, "alice", ref.MsgCoopClose, mustJSON(&swap.CoopCloseMessage{SwapId: id, Message: "x", Privkey: "zz"}))
+					w.InjectMsg(a.ID, "bob", ref.MsgCoopClose, mustJSON(&swap.CoopCloseMessage{SwapId: id, Message: "x", Privkey: "zz"}))
+				}
 			}
 		}
 		time.Sleep(2 * time.Millisecond)
@@ -913,6 +928,20 @@ func runC22(r *Run, seed int64, c c22Case) {
 			}
 		}
 		chain.Mine(int(ref.CSV(c.chain, 7)) + 2)
+	case "cancel-while-send-stalled":
+		// the Lightning backend stalls (its send call has no deadline): every send of the announcement blocks for 20
+		// retry intervals; 3 intervals into the stall the taker cancels
+		var stallUntil atomic.Int64
+		stallUntil.Store(time.Now().Add(20 * interval).UnixNano())
+		m.OnCrossing = func(k int64, op string) {
+			if op == fmt.Sprintf("msg.send:%d", ref.MsgOpeningTxBroadcast) {
+				for time.Now().UnixNano() < stallUntil.Load() {
+					time.Sleep(interval / 2)
+				}
+			}
+		}
+		time.Sleep(3 * interval)
+		tk.Send("alice", ref.MsgCancel, &swap.CancelMessage{SwapId: id, Message: "no"})
 	case "csv-unreachable":
 		// the taker disconnects: every further send of the announcement fails; then the CSV matures
 		unreachable.Store(true)
@@ -1012,7 +1041,13 @@ func runC22(r *Run, seed int64, c c22Case) {
 		// still busy (its select may take a ready tick before it sees the stop); counted, judged below
 		r.CountIn("extra_due_copies_after_move", fmt.Sprintf("%s/%s=%d", c.typ, c.cont, copiesAfter))
 	}
-	if movedOn != 0 && copiesLate > 1 {
+	if c.cont == "cancel-while-send-stalled" {
+		// the one send that was blocked when the swap moved on goes out when the backend recovers, and the stopped
+		// sender may find a tick or two due; more than that means sends piled up behind the stalled one
+		if movedOn != 0 && copiesLate > 3 {
+			r.Violate("stops-when-moved-on", fmt.Sprintf("C22|copies-pile-up-behind-a-stalled-send|%s|%s", c.typ, c.cont), det, traceOf(w))
+		}
+	} else if movedOn != 0 && copiesLate > 1 {
 		r.Violate("stops-when-moved-on", fmt.Sprintf("C22|retransmission-continues|%s|%s|final=%s", c.typ, c.cont, final), det, traceOf(w))
 	}
 	if c.cont == "restart" {
@@ -1036,7 +1071,7 @@ func TestC22(t *testing.T) {
 	var cases []c22Case
 	for _, ch := range []string{"btc", "lbtc"} {
 		for _, ty := range []string{"in", "out"} {
-			for _, ct := range []string{"payment", "cancel", "coop-good", "coop-bad", "invalid", "csv", "restart", "csv-unreachable", "csv-slow-wallet"} {
+			for _, ct := range []string{"payment", "cancel", "coop-good", "coop-bad", "invalid", "csv", "restart", "csv-unreachable", "csv-slow-wallet", "cancel-while-send-stalled"} {
 				cases = append(cases, c22Case{ch, ty, ct})
 			}
 		}
